@@ -160,8 +160,16 @@ class EF:
                 elif k == "Aggregate" and rv.get("agg") == "Adt":
                     ops = rv["ops"]
                     carried = [o for o in ops if o.get("k") in ("copy", "move") and o["p"]["l"] in car and not o["p"]["proj"]]
-                    if carried:
+                    # `Err((r as Err).0)`: the payload taken out of a failed Result and wrapped again (what Result::map / map_err /
+                    # and_then do on the failing side)
+                    repack = [o for o in ops if o.get("k") in ("copy", "move") and o["p"]["l"] in car and car[o["p"]["l"]][0] == "res"
+                              and len(o["p"]["proj"]) == 2 and o["p"]["proj"][0][0] == "downcast" and o["p"]["proj"][0][2] == "Err" and o["p"]["proj"][1][0] == "field"]
+                    if repack and not carried:
+                        ck, cc = "pay", car[repack[0]["p"]["l"]][1]
+                        carried = repack
+                    elif carried:
                         ck, cc = car[carried[0]["p"]["l"]]
+                    if carried:
                         vn = rv["variant_name"]
                         adt = rv["adt"]
                         if adt.endswith("Result") and vn == "Err" and ck == "pay":
